@@ -344,6 +344,26 @@ func runC09(x *X) *Violation {
 	if k < 2 {
 		k = 2
 	}
+	// a root struct of <= 3 fields without nested structs is visited exactly once per call: sweep ALL its orders
+	sweep := 0
+	if s.Kind == "struct" && len(s.Fields) >= 2 && len(s.Fields) <= 3 {
+		nested := false
+		for _, f := range s.Fields {
+			f.N.Walk(func(n *Node) {
+				if n.Kind == "struct" {
+					nested = true
+				}
+			})
+		}
+		if !nested {
+			sweep = 2
+			if len(s.Fields) == 3 {
+				sweep = 6
+			}
+			k = sweep
+			x.Probes["exhaustive_order_sweeps"]++
+		}
+	}
 	x.FreshRun("v0/")
 	saveP := x.Dec.Cfg.VisitP
 	defer func() { x.Dec.Cfg.VisitP = saveP }()
@@ -359,6 +379,14 @@ func runC09(x *X) *Violation {
 			x.SetPhase(ph)
 			if j == 0 {
 				x.Dec.Benign[ph] = true
+			} else if sweep > 0 {
+				// the j-th permutation as Lehmer digits of the visit stream (pool decisions stay drawn)
+				site := StructSiteFor(op.Kind)
+				digits := []int{j % 2}
+				if sweep == 6 {
+					digits = []int{j / 2, j % 2}
+				}
+				x.Dec.Forced[ph+"visit:"+site] = digits
 			} else {
 				x.Dec.Cfg.VisitP = 1
 			}
